@@ -70,21 +70,37 @@ where
   | A :: As, B :: Bs => sameObj A B && sameList As Bs
   | _, _ => false
 
-def isScalarMul : Op R → Bool
+/-- the operator without its declaration wrappers (the class of the Python object) -/
+def core : Op R → Op R
+  | annot _ A => A.core
+  | A => A
+
+def isScalarMul (A : Op R) : Bool :=
+  match A.core with
   | scalar _ _ _ => true
   | _ => false
 
-/-- `are_the_same(A1, A1T)` of annotations.py -/
-def areTheSame : Op R → Op R → Bool
-  | A1, adjoint B => sameObj A1 B
-  | A1, transpose B => sameObj A1 B
-  | adjoint B, A2 => sameObj B A2
-  | transpose B, A2 => sameObj B A2
-  | _, _ => false
+/-- `are_the_same(A1, A1T)` of annotations.py (isinstance tests look at the class, i.e. through
+declaration wrappers; `is` compares with the wrapped object's `.A`) -/
+def areTheSame (A1 A2 : Op R) : Bool :=
+  match A2.core with
+  | adjoint B => sameObj A1 B
+  | transpose B => sameObj A1 B
+  | _ =>
+    match A1.core with
+    | adjoint B => sameObj B A2
+    | transpose B => sameObj B A2
+    | _ => false
 
-def isTA : Op R → Bool
+def isTA (A : Op R) : Bool :=
+  match A.core with
   | transpose _ => true
   | adjoint _ => true
+  | _ => false
+
+def isT (A : Op R) : Bool :=
+  match A.core with
+  | transpose _ => true
   | _ => false
 
 /-- the two index objects compare equal the way `get_annotations(Sliced)` compares them -/
@@ -102,7 +118,8 @@ def anns : Op R → AnnSet
   | prod Ms =>
       let as := Ms.map (·.anns)
       let gram := match Ms with
-        | [A1, A2] => (isTA A1 || isTA A2) && areTheSame A1 A2
+        | [A1, A2] => (isTA A1 || isTA A2) && areTheSame A1 A2 &&
+            (!A1.dtype.isComplex || !(isT A1 || isT A2))
         | _ => false
       if gram then AnnSet.union (AnnSet.inter (AnnSet.interAll as) [.unitary, .stiefel]) [.psd]
       else
@@ -112,8 +129,8 @@ def anns : Op R → AnnSet
         | _ => AnnSet.inter (AnnSet.interAll as) [.unitary, .stiefel]
   | sliced A s0 s1 =>
       if slicesSymmetric s0 s1 then AnnSet.diff A.anns [.unitary, .stiefel] else []
-  | transpose A => A.anns
-  | adjoint A => A.anns
+  | transpose A => if A.rows = A.cols then A.anns else AnnSet.diff A.anns [.stiefel]
+  | adjoint A => if A.rows = A.cols then A.anns else AnnSet.diff A.anns [.stiefel]
   | annot a A => AnnSet.union A.anns [a]
   | _ => []
 
